@@ -13,7 +13,7 @@ SPEC = {
                    "PyMatterSim.static.hessians:PairInteractions.inverse_power_law",
                    "PyMatterSim.static.hessians:PairInteractions.harmonic_hertz",
                    "PyMatterSim.static.hessians:PairInteractions.caller"],
-    "floors": {"symbolic_derivatives": 15000, "numeric_guard": 100, "selector": 1000, "structure": 18, "scaling": 1000},
+    "floors": {"symbolic_derivatives": 15000, "numeric_guard": 100, "selector": 1000, "structure": 18, "scaling": 1000, "attribute_reassigned": 500},
     "insitu": (),
     "rule": ("r/sigma in [0.5, r_c/sigma], epsilon/sigma/A log-uniform over 6 decades, n in [1,36] real, alpha in (1,4] real "
              "(r<sigma), both shift settings, all three models through the named method and through the selector; "
@@ -166,6 +166,41 @@ def run(ctx):
             g2 = mpmath.diff(lambda x: U(x, *a[1:]), a[0], 2)
             ctx.check("numeric_guard", abs(g1 - e1) <= abs(e1) * mpmath.mpf("1e-20") and abs(g2 - e2) <= abs(e2) * mpmath.mpf("1e-15"),
                       "oracle/symbolic_vs_numeric", "sympy derivative disagrees with mpmath numerical derivative", pars)
+        # history on one object: a public attribute is re-assigned (a scan over r, r_c, sigma or epsilon for one pair object) and the same
+        # request is made again.  Whether the object reads its attributes when constructed or when called is not pinned by C12: the triple of
+        # EITHER reading is accepted, a mixture of old and new values (a ratio sigma/r_c kept from the constructor, say) is not.
+        if i % 7 == 2 and not (model == "harmonic_hertz" and float(r) == float(sig)) and not beyond and i % 11 != 3:
+            which = str(rng.choice(["r", "epsilon"] if model == "harmonic_hertz" else ["r", "r_c", "sigma", "epsilon"]))
+            new = dict(r=float(r), epsilon=float(eps_), sigma=float(sig), r_c=float(rc))
+            if which == "r":
+                new["r"] = float(r) * float(rng.uniform(0.6, 0.95))
+            elif which == "epsilon":
+                new["epsilon"] = float(eps_) * float(rng.uniform(1.3, 4.0))
+            elif which == "r_c":
+                new["r_c"] = float(rc) * float(rng.uniform(1.1, 1.7))
+            else:
+                new["sigma"] = float(sig) * float(rng.uniform(0.75, 0.97))
+            if hasattr(pi, which):
+                old_value = getattr(pi, which)
+                setattr(pi, which, new[which])
+                call2 = (lambda: pi.caller(ip)) if via_caller else f
+                ok2, got2 = ctx.call(f"{model}/attribute_reassigned", call2, data={**pars, "reassigned": which, "to": new[which]})
+                if ok2:
+                    try:
+                        obs2 = np.array([float(v) for v in got2])
+                    except (TypeError, ValueError):
+                        obs2 = np.full(3, np.nan)
+                    a2 = tuple(mpmath.mpf(float(v_)) for v_ in (new["r"], new["epsilon"], new["sigma"], n, A, al))
+                    e2rc = d1(mpmath.mpf(new["r_c"]), *a2[1:]) if (shift and model != "harmonic_hertz") else mpmath.mpf(0)
+                    exp_new = np.array([float(d1(*a2)), float(e2rc), float(d2(*a2))])
+
+                    def agrees(o, e):
+                        return bool(np.all((np.abs(o - e) <= 1e-9 * np.maximum(np.abs(e), np.abs(exp).max() * 1e-6)) | ((e == 0) & (o == 0))))
+                    ctx.check("attribute_reassigned", agrees(obs2, exp_new) or agrees(obs2, exp), f"{model}/attribute_reassigned",
+                              lambda: f"after re-assigning .{which} the triple {obs2.tolist()} is neither the one of the new values {exp_new.tolist()} "
+                                      f"nor the one of the values given at construction {exp.tolist()}", {**pars, "reassigned": which, "to": new[which]})
+                pi = PairInteractions(r=r, epsilon=eps_, sigma=sig, r_c=rc, shift=shift)    # the later relations start from a fresh object again
+                del old_value
         # selector: the triple of the requested model, not of another one
         if via_caller:
             others = []
